@@ -125,32 +125,42 @@ def run(ctx):
         if r[0] == "ok":
             ok_texts.append(t)
     ok_texts = ok_texts[:ctx.budget(6, 30)]
+    # distinct commented documents: with include_comments the comment bookkeeping of concurrent calls must not mix
+    commented = []
+    for i in range(ctx.budget(8, 24)):
+        commented.append("# head %d\nMAP # map %d\n  NAME 'm%d' # name %d\n  /* block %d */\n  LAYER # layer %d\n    NAME 'l%d' # lname %d\n    TYPE POINT # type %d\n"
+                         "    METADATA 'k' 'v%d' # kv %d\n    END\n  END # endlayer %d\nEND # endmap %d\n" % ((i,) * 13))
+
+    def call(t, ip, ic):
+        d = mappyfile.loads(t, expand_includes=False, include_position=ip, include_comments=ic)
+        return (codec.canon(d), mappyfile.dumps(d), codec.canon(mappyfile.validate(d)))
     seq = {}
-    for t in ok_texts:
-        d = mappyfile.loads(t, expand_includes=False)
-        seq[t] = (codec.canon(d), mappyfile.dumps(d), codec.canon(mappyfile.validate(d)))
+    for t in ok_texts + commented:
+        for ip, ic in ((False, False), (True, False), (False, True), (True, True)):
+            seq[(t, ip, ic)] = call(t, ip, ic)
     old = sys.getswitchinterval()
     sys.setswitchinterval(1e-6)
     errors = []
     try:
-        for rnd in range(ctx.budget(1, 8)):
+        for rnd in range(ctx.budget(2, 8)):
             n_threads = rng.choice([8, 12, 16]) if ctx.tier == 'thorough' else 8
             shared = rng.random() < 0.5
+            with_comments = rnd % 2 == 1
+            pool = commented if with_comments else ok_texts
             plans = []
             for i in range(n_threads):
                 k = rng.randrange(2, ctx.budget(4, 7))
-                plans.append([ok_texts[0] if shared else rng.choice(ok_texts) for _ in range(k)])
-            ctx.note_case(("threads", rnd, n_threads, shared))
+                plans.append([(pool[0] if shared else pool[(i + j) % len(pool)], rng.random() < 0.5, with_comments) for j in range(k)])
+            ctx.note_case(("threads", rnd, n_threads, shared, with_comments))
 
             def work(plan, idx):
                 try:
-                    for t in plan:
-                        d = mappyfile.loads(t, expand_includes=False)
-                        got = (codec.canon(d), mappyfile.dumps(d), codec.canon(mappyfile.validate(d)))
-                        if got != seq[t]:
-                            errors.append((idx, t, "result differs from the sequential call"))
+                    for t, ip, ic in plan:
+                        got = call(t, ip, ic)
+                        if got != seq[(t, ip, ic)]:
+                            errors.append((idx, t, "result differs from the sequential call (include_position=%s include_comments=%s)" % (ip, ic)))
                 except Exception as ex:  # noqa
-                    errors.append((idx, plan[0], "raised %s: %s" % (type(ex).__name__, str(ex)[:100])))
+                    errors.append((idx, plan[0][0], "raised %s: %s" % (type(ex).__name__, str(ex)[:100])))
             ths = [threading.Thread(target=work, args=(p, i)) for i, p in enumerate(plans)]
             for th in ths:
                 th.start()
